@@ -21,7 +21,7 @@ MISTAKES = (
     "nested_recursive_body_fails", "struct_bad_field_type",
     "entry_const_params", "declare_const_params", "struct_methods_override_fields",
     "unsolved_pair", "family_body_fails", "uninferable_call", "maybe_undefined_dead_merge",
-    "comptime_name_suggestion",
+    "comptime_name_suggestion", "lowering_fails",
 )
 # mistakes that are planted at module level, not inside a function body
 MODULE_LEVEL = ("comptime_raises", "entry_has_args", "non_monomorphic_entry",
@@ -486,6 +486,11 @@ def plant(b: Body, lines: list[str], env: dict, m: dict) -> list[str]:
         ins = [[forms[ch.draw(len(forms), "unsolved_form")]]]
     elif kind == "maybe_undefined_dead_merge":
         ins = [b.dead_jump_merge(env, maybe=True)]
+    elif kind == "lowering_fails":
+        # passes checking, raises while the body is LOWERED (compile stage)
+        gen_fn = next((c.name for c in b.callees if c.kind == "generic"), None)
+        forms = [f"{b.fresh('u')} = len"] + ([f"{b.fresh('u')} = {gen_fn}"] if gen_fn else [])
+        ins = [[forms[(ch.draw(2, 'lowering_form') + j) % len(forms)]] for j in range(k)]
     elif kind == "comptime_name_suggestion":
         # a comptime expression that raises NameError while mentioning k+1 defined Python
         # names equally close to the missing one (the interpreter's "Did you mean" hint
@@ -674,12 +679,12 @@ class ProgGen:
                     ]
             body_ext = f"{prefix}frob(x) + 1"
             if ch.draw(2, "second_ext"):
-                src += [f"{prefix}YEXT = _he.Extension(\"acme.clock\", _he.Version(0, 2, 0))",
-                        f"{prefix}YTICK = {prefix}YEXT.add_op_def(_he.OpDef(\"tick\", signature=_he.OpDefSig("
-                        "_ht.FunctionType([_int_t(6)], [_int_t(6)])), description=\"demo op 2\"))", "",
-                        f"@hugr_op(lambda ty, inst, ctx: _hops.ExtOp({prefix}YTICK, ty, []))",
-                        f"def {prefix}tick(x: int) -> int: ...", ""]
-                body_ext = f"{prefix}frob({prefix}tick(x)) + 1"
+                # ops of two third-party extensions that are registered nowhere
+                src += [f"@hugr_op(lambda ty, inst, ctx: _hops.Custom(\"tick\", ty, extension=\"acme.clock\"))",
+                        f"def {prefix}tick(x: int) -> int: ...", "",
+                        f"@hugr_op(lambda ty, inst, ctx: _hops.Custom(\"draw\", ty, extension=\"acme.rng\"))",
+                        f"def {prefix}draw(x: int) -> int: ...", ""]
+                body_ext = f"{prefix}frob({prefix}tick({prefix}draw(x))) + 1"
             src += ["@guppy", f"def {prefix}uses_ext(x: int) -> int:", f"    return {body_ext}", ""]
             defs += [f"{prefix}uses_ext"]
             sigs.append(FnSig(f"{prefix}uses_ext", [("x", "int")], "int", "custext"))
@@ -783,7 +788,7 @@ class ProgGen:
         # make sure every family is reachable from main
         env = {p: t for p, t in sig.params}
         for s in sigs:
-            if self.ch.draw(2, "use_" + s.kind) or s.kind in ("comptime", "ctarg2"):
+            if self.ch.draw(2, "use_" + s.kind) or s.kind in ("comptime", "ctarg2", "custext"):
                 args = ", ".join(b.expr(env, t, 2) for _, t in s.params)
                 body.append(f"{s.name}({args})")
         hdr = f"def {sig.name}({', '.join(f'{p}: {t}' for p, t in sig.params)}) -> None:"
